@@ -836,6 +836,10 @@ impl StateMachine for RocksDBStateMachine {
                         let lease =
                             self.lease.as_ref().expect("lease always initialized by NodeBuilder");
                         lease.register(key.clone(), *ttl);
+                    } else if let Some(ref lease) = self.lease {
+                        // A write without TTL replaces the key for good: an expiry left over
+                        // from an earlier write must not delete the new value later.
+                        lease.unregister(key);
                     }
 
                     results.push(ApplyResult::success(entry.index));
@@ -867,6 +871,9 @@ impl StateMachine for RocksDBStateMachine {
 
                     if cas_success {
                         batch.put_cf(&cf, key, new_value);
+                        if let Some(ref lease) = self.lease {
+                            lease.unregister(key);
+                        }
                     }
 
                     results.push(if cas_success {
